@@ -1602,6 +1602,7 @@ class TaintFn:
         if a.kwarg:
             self.t[a.kwarg.arg] = {("p", a.kwarg.arg, "a")}
         self.mut = {}     # (kind, name) -> [(site text, expression tag)]
+        self.stored = {}  # parameter name -> [(site text, tag)]: the object is kept in an attribute (outlives the call)
         self.calls = []
 
     @staticmethod
@@ -1734,6 +1735,13 @@ class TaintFn:
                 break
         rel = os.path.relpath(self.f.mod.path, self.A.repo)
         for n in nodes:
+            if isinstance(n, (ast.Assign, ast.AnnAssign)) and getattr(n, "value", None) is not None:
+                for t in (n.targets if isinstance(n, ast.Assign) else [n.target]):
+                    if isinstance(t, ast.Attribute):
+                        for (k, nm, lv) in self.src(n.value):
+                            if k == "p" and lv == "a":
+                                tg = "%s = %s" % (ast.unparse(t)[:40], ast.unparse(n.value)[:40])
+                                self.stored.setdefault(nm, []).append(("%s:%d %s" % (rel, n.lineno, tg), tg))
             if isinstance(n, (ast.Assign, ast.AugAssign, ast.AnnAssign, ast.Delete)):
                 tl = n.targets if isinstance(n, (ast.Assign, ast.Delete)) else [n.target]
                 for t in tl:
@@ -1857,6 +1865,48 @@ def alias_pass(A, V):
                                 if not add <= cur:
                                     cur |= add
                                     changed = True
+    # parameters whose object is kept in an attribute, directly or by a resolved callee (one fixpoint as above)
+    storep = {q: {nm: set(v) for nm, v in t.stored.items()} for q, t in T_.items()}
+    changed, rounds = True, 0
+    while changed and rounds < 6:
+        changed = False
+        rounds += 1
+        for q, t in T_.items():
+            for (ln, callees, skip, args, text) in t.calls:
+                for g in callees:
+                    for key, srcs in args:
+                        bp = bound_param(g, skip, key)
+                        if bp is None or not storep.get(g.qual, {}).get(bp):
+                            continue
+                        add = set(("%s -> %s" % (text, w), tg) for (w, tg) in storep[g.qual][bp] if w.count("->") < 3)
+                        for (k, nm) in srcs:
+                            if k == "p":
+                                cur = storep[q].setdefault(nm, set())
+                                if not add <= cur:
+                                    cur |= add
+                                    changed = True
+    # mutable DEFAULT arguments ({} / [] / set() / dict() / list() ...): one object per process, shared by every
+    # call that omits the argument; harmful as soon as it is mutated or kept in an attribute
+    n_mut_defaults = 0
+    for q, t in T_.items():
+        f = A.funcs[q]
+        a = f.node.args
+        pos = a.posonlyargs + a.args
+        pairs = list(zip(pos[len(pos) - len(a.defaults):], a.defaults)) + [
+            (x, d) for x, d in zip(a.kwonlyargs, a.kw_defaults) if d is not None]
+        for x, d in pairs:
+            mutable = isinstance(d, (ast.Dict, ast.List, ast.Set)) or (
+                isinstance(d, ast.Call) and isinstance(d.func, ast.Name) and d.func.id in MUTABLE_CTORS)
+            if not mutable:
+                continue
+            n_mut_defaults += 1
+            uses = sorted(mutp[q].get(x.arg, set())) + sorted(storep[q].get(x.arg, set()))
+            for (w, tg) in uses:
+                A.eff(f.fid, "ModuleGlobalWrite", (),
+                      "%s:%d mutable default argument %s=%s of %s is shared by all calls: %s" % (
+                          os.path.relpath(f.mod.path, A.repo), d.lineno, x.arg, ast.unparse(d)[:20], f.node.name, w[:200]),
+                      tag="mutable default argument %s=%s: %s" % (x.arg, ast.unparse(d)[:20], tg.split(": ")[-1]))
+    A.stats["mutable_default_arguments"] = n_mut_defaults
     for q, t in T_.items():
         f = A.funcs[q]
         for (k, nm), sites in t.mut.items():
@@ -2126,6 +2176,7 @@ def emit(A, out_path, sidecar_path=None):
                 calls_through_callable_valued_locals=A.stats["unresolved_local_calls"],
                 calls_of_callable_valued_attributes=A.stats.get("calls_of_callable_valued_attributes", 0),
                 functools_partial_sites=A.stats.get("functools_partial_sites", 0),
+                mutable_default_arguments=A.stats.get("mutable_default_arguments", 0),
                 lambda_sites=A.stats.get("lambda_sites", 0),
                 nested_function_definitions=sum(1 for f in A.funcs.values() for n in ast.walk(f.node)
                                                 if isinstance(n, (ast.FunctionDef, ast.AsyncFunctionDef)) and n is not f.node),
